@@ -191,7 +191,7 @@ E2_TRUSTED = ['g++-12 compiling the real FEAT templates with the SymReal scalar 
 E2_ASSUME = ['real arithmetic on values: the claim is about the rational functions the code computes, rounding is outside',
              'divisors are non-zero wherever the executed code divides (asserted as hypotheses of each query)',
              'path conditions recorded by concolic execution restrict each obligation (counted in evidence)']
-E2_RULE = 'one obligation = one identity (or inequality) between a result of the real code and the oracle term for one discrete configuration; non-trivial = the two DAG terms differ syntactically and z3 answered unsat over all real values of the free variables'
+E2_RULE = 'one obligation = one identity (or inequality) between a result of the real code and the oracle term for one discrete configuration, or one structural fact (dimensions, index arrays, pointer identity, completion) evaluated on the concrete discrete part of that configuration; distinct_nontrivial counts the structural facts plus the identities whose two DAG terms differ syntactically and for which z3 answered unsat over all real values of the free variables (identities whose hash-consed DAG terms coincide are discharged syntactically and are not counted; evaluations = solver queries)'
 
 
 def e2_harness_path(name):
